@@ -428,6 +428,13 @@ impl<'a> Exec<'a> {
                 self.out.executed += 1;
                 self.do_search(ix, op, *s, q, *deep);
             }
+            Op::PSearch { s, s2, q, q2, at } => {
+                if !self.stores.contains_key(s) || !self.stores.contains_key(s2) {
+                    return;
+                }
+                self.out.executed += 1;
+                self.do_psearch(ix, op, *s, *s2, q, q2, *at);
+            }
             Op::Prepare { s, q, size } => {
                 if !self.stores.contains_key(s) {
                     return;
@@ -575,6 +582,72 @@ impl<'a> Exec<'a> {
     fn do_search(&mut self, ix: usize, op: &Op, s: usize, q: &str, deep: bool) {
         let qq = q.to_string();
         let res = self.run_store(s, move |st| sut::search(st, &qq));
+        self.after_search(ix, op, s, q, deep, res);
+    }
+
+    /// Two searches of two stores on two caller threads, the first one parked mid-way while the
+    /// second runs (hooks build); both are then judged exactly like ordinary searches.
+    fn do_psearch(&mut self, ix: usize, op: &Op, s: usize, s2: usize, q: &str, q2: &str, at: usize) {
+        let (t1, t2) = (self.stores[&s].thread, self.stores[&s2].thread);
+        let blocked = crate::kernel::PREEMPT_BLOCKED.load(std::sync::atomic::Ordering::SeqCst);
+        if s == s2 || t1 == t2 || blocked || !cfg!(feature = "hooks") {
+            let _ = at;
+            self.do_search(ix, op, s, q, false);
+            if self.out.violation.is_none() && self.out.stopped_by_panic.is_none() {
+                self.do_search(ix, op, s2, q2, false);
+            }
+            return;
+        }
+        #[cfg(feature = "hooks")]
+        {
+            let st1 = self.stores.get_mut(&s).unwrap().store.take().expect("store present");
+            let st2 = self.stores.get_mut(&s2).unwrap().store.take().expect("store present");
+            let (qa, qb) = (q.to_string(), q2.to_string());
+            let first = move || {
+                let mut seen = 0usize;
+                lib::verif::set_sched_hook(Some(Box::new(move |site| {
+                    seen += 1;
+                    if seen == at {
+                        crate::kernel::park_here(site);
+                    }
+                })));
+                struct Unhook;
+                impl Drop for Unhook {
+                    fn drop(&mut self) {
+                        lib::verif::set_sched_hook(None);
+                    }
+                }
+                let _unhook = Unhook;
+                let r = sut::search(&st1, &qa);
+                (st1, r)
+            };
+            let second = move || {
+                let r = sut::search(&st2, &qb);
+                (st2, r)
+            };
+            let (r1, r2, site) = self.threads[t1].run_preempted(first, &self.threads[t2], second, std::time::Duration::from_secs(5));
+            let res1 = r1.map(|(st, r)| {
+                self.stores.get_mut(&s).unwrap().store = Some(st);
+                r
+            });
+            let res2 = r2.map(|(st, r)| {
+                self.stores.get_mut(&s2).unwrap().store = Some(st);
+                r
+            });
+            if site.is_some() {
+                self.out.faults[F_PREEMPT] += 1;
+                self.out.nontrivial = true;
+            }
+            self.after_search(ix, op, s, q, false, res1);
+            if self.out.violation.is_none() && self.out.stopped_by_panic.is_none() {
+                self.after_search(ix, op, s2, q2, false, res2);
+            } else if let Err(p) = &res2 {
+                let _ = p;
+            }
+        }
+    }
+
+    fn after_search(&mut self, ix: usize, op: &Op, s: usize, q: &str, deep: bool, res: Result<Hits, PanicInfo>) {
         self.out.searches += 1;
         self.abstract_state(s);
 
